@@ -151,11 +151,21 @@ def build(rng, name, setup=None, sup=None, vacancy=False, jumps=False, ts=False,
     n = len(S.clusterexp)
     # integer energies; even when a jump network is present (the evaluator halves them)
     step = 2 if jumps else 1
-    if vals == "int":
-        S.values = np.array([step * rng.randint(-6, 6) for _ in range(n + 1)], dtype=float if jumps else int)
+    if vals in ("ext", "huge") and jumps: return None       # (the jump evaluators add +v/2 and -v/2 of one cluster: inf - inf)
+    S.valkind = vals
+    if vals in ("int", "ext", "huge"):
+        S.values = np.array([step * rng.randint(-6, 6) for _ in range(n + 1)], dtype=float if (jumps or vals != "int") else int)
+        if vals != "int":
+            # extended values on clusters with >= 2 mobile sites and no spectator (hard-core exclusion +inf, 0, huge 1e300):
+            # an interaction that is OFF contributes nothing whatever its value
+            for k, cl in enumerate(S.clusterexp):
+                c0 = next(iter(cl))
+                if c0.Norder >= 2 and all(site.ci[0] not in spect for site in c0.sites):
+                    r = rng.random()
+                    S.values[k] = np.inf if r < 0.4 else (0. if r < 0.55 else (1e300 if (vals == "huge" and r < 0.8) else S.values[k]))
     else:
         S.values = np.array([rng.uniform(-1, 1) for _ in range(n + 1)])
-    if vacancy and vals == "int":
+    if vacancy and vals in ("int", "ext", "huge"):
         # distinct values for the bare (vacancy site only) vacancy clusters of the different Wyckoff sets
         bare_v = [len(bare) + k for k, cl in enumerate(S.vacclusters) if next(iter(cl)).Norder == 0]
         for k, v in zip(bare_v, rng.sample(range(-6, 7), len(bare_v))): S.values[k] = step * v
@@ -197,6 +207,7 @@ def sampler(S, sup=None):
         MC = cluster.MonteCarloSampler(sup, S.socc, S.clusterexp, S.values, S.chem, S.jumpnetwork,
                                        KRAvalues=S.KRA, TSclusters=S.TSclusters, TSvalues=S.TSvalues)
     # a never-used twin (own copies of every mutable container the object may hold), from which fresh samplers are cloned
+    MC._verif_kind = getattr(S, "valkind", "int")
     P = copy.copy(MC); _detach(P)
     MC._verif_pristine = P
     return MC
@@ -252,10 +263,48 @@ def zz(x):
     return "(%d)" % x if x < 0 else "%d" % x
 
 
+INF_Z = 10 ** 40       # +inf is the symbol INF_Z in the exact integer arithmetic of the model (far above every finite sum)
+HUGE_Z = 10 ** 30      # 1e300 likewise (direct evaluator only)
+
+
+def eqf(a, b):
+    """float equality that treats nan == nan (an undefined value reported consistently)"""
+    a, b = float(a), float(b)
+    return a == b or (a != a and b != b)
+
+
+def enc(x, scale=1):
+    """exact integer code of a (possibly extended) value"""
+    x = float(x)
+    if x != x: raise AssertionError("nan value")
+    if np.isinf(x): return scale * INF_Z * (1 if x > 0 else -1)
+    if abs(x) >= 1e299: return scale * HUGE_Z * int(round(x / 1e300))      # (equal site tuples are merged: k * 1e300)
+    return intval(scale * x, "value")
+
+
+def exact_E(MC, cc, scale=1):
+    """the energy from the definition, in exact integers: sum of the values of the interactions that are ON"""
+    return sum(enc(MC.interactvalue[m], scale) for m in range(MC.Nenergy) if cc[m] == 0)
+
+
+def consistent(x, exact, scale=1):
+    """does the float x the implementation reports represent the exact (coded) value?"""
+    x = float(x)
+    if abs(exact) >= scale * INF_Z // 2:
+        return np.isinf(x) and (x > 0) == (exact > 0)
+    if abs(exact) >= scale * HUGE_Z // 2:
+        k = round(exact / (scale * HUGE_Z))
+        return np.isfinite(x) and abs(x - k * 1e300) <= 1e-9 * 1e300 * max(1, abs(k))
+    try:
+        return np.isfinite(x) and intval(scale * x) == exact
+    except AssertionError:
+        return False
+
+
 def static_term(MC, scale=1):
     """Coq term of type static Zring for the sampler's tables (needs the PRELUDE definitions)"""
     rws = rows(MC)
-    vals = [intval(scale * v, "interactvalue") for v in MC.interactvalue]
+    vals = [enc(v, scale) for v in MC.interactvalue]
     if MC.jumps is None:
         js, ir = "None", "[]"
     else:
